@@ -1,3 +1,4 @@
+import Splipy.Lemmas.C10Cummax
 import Splipy.Lemmas.C03DerivSplineGen
 
 /-!
@@ -32,8 +33,11 @@ theorem mk_deriv_nonperiodic {b : Basis K} (hv : b.Valid) (hper : b.periodic = -
   have hsz := hv.size_ge
   have hs : (b.knots.extract 1 (b.knots.size - 1)).size = b.knots.size - 2 := by simp; omega
   refine ⟨⟨b.order - 1, b.knots.extract 1 (b.knots.size - 1), -1⟩, ?_, ⟨rfl, rfl, rfl⟩⟩
+  have hcm : Basis.cummax (b.knots.extract 1 (b.knots.size - 1)) = b.knots.extract 1 (b.knots.size - 1) :=
+    Basis.cummax_extract_of_sorted _ _ _ (Basis.sorted_getD_of_kn _ hv.sorted)
   unfold Basis.mk?
   simp only [hs, hper]
+  rw [hcm]
   rw [if_neg (by omega), if_neg (by omega)]
   have hmax : max ((-1 : Int) - 1) (-1) = -1 := by decide
   simp only [hmax]
@@ -58,8 +62,11 @@ theorem mk_deriv_periodic {b : Basis K} (hv : b.Valid) (hper : 0 ≤ b.periodic)
   have hmax : max (b.periodic - 1) (-1) = b.periodic - 1 := by omega
   have hsg := hv.size_ge
   refine ⟨⟨b.order - 1, b.knots.extract 1 (b.knots.size - 1), b.periodic - 1⟩, ?_, ⟨rfl, rfl, rfl⟩⟩
+  have hcm : Basis.cummax (b.knots.extract 1 (b.knots.size - 1)) = b.knots.extract 1 (b.knots.size - 1) :=
+    Basis.cummax_extract_of_sorted _ _ _ (Basis.sorted_getD_of_kn _ hv.sorted)
   unfold Basis.mk?
   simp only [hs, hmax]
+  rw [hcm]
   rw [if_neg (by omega), if_neg (by omega), if_neg (by rintro ⟨h1, h2⟩; omega)]
   have hT : ∀ j, j + b.numFunctions < b.knots.size →
       b.kn (j + b.numFunctions) = b.kn j + (b.stop - b.start) := hv.ghosts hper
